@@ -203,7 +203,7 @@ func SubsetGlyphs(e *Env, arg int) []glyph.ID { return subsetGlyphs(e, arg) }
 
 // QuickEnvNames are the environments of the quick tier.
 var QuickEnvNames = []string{"rt-cid3", "rt-cid0", "cff-gtab", "cff-sub", "cff-cid", "cff-nonames", "rt-cff",
-	"glyf-gtab", "glyf-sub", "glyf-bi", "glyf-nonames", "rt-glyf", "cff-ctx", "rt-ctx", "cff-all"}
+	"glyf-gtab", "glyf-sub", "glyf-bi", "glyf-nonames", "rt-glyf", "cff-big", "cff-ctx", "rt-ctx", "cff-all"}
 
 // AllEnvNames are the environments of the thorough tier.
 func AllEnvNames() []string { return append(append([]string{}, EnvNames...), RichEnvNames...) }
